@@ -661,6 +661,19 @@ func (s *Session) Logout() {
 	}
 
 	s.Client.Close()
+
+	if s.User != nil && s.StateID != 0 {
+		var keep []int64
+
+		for _, id := range s.Bed.Server.VerifStateIDs(s.User.ID) {
+			if id != s.StateID {
+				keep = append(keep, id)
+			}
+		}
+
+		s.Bed.waitStatesGone(s.User, keep)
+	}
+
 	gluon.VerifGateForget(s.StateID)
 }
 
@@ -682,6 +695,10 @@ func (b *Bed) FreshView(u *User, mbox string, withBody bool) (msgs []FreshMsg, u
 		return nil, 0, 0, false, err
 	}
 
+	before := b.Server.VerifStateIDs(u.ID)
+
+	// the state of this throw-away session must be gone before anyone places a barrier again
+	defer b.waitStatesGone(u, before)
 	defer c.Close()
 
 	if r := c.Cmdf("LOGIN %s %s", quote(u.Name), quote(u.Pass)); !r.OK() {
@@ -789,6 +806,34 @@ func (b *Bed) FreshView(u *User, mbox string, withBody bool) (msgs []FreshMsg, u
 	}
 
 	return msgs, uidValidity, uidNext, true, nil
+}
+
+// waitStatesGone waits (bounded, not a correctness signal) until the user has no states other than the given ones.
+func (b *Bed) waitStatesGone(u *User, keep []int64) {
+	k := map[int64]bool{}
+	for _, id := range keep {
+		k[id] = true
+	}
+
+	for i := 0; i < 4000; i++ {
+		extra := false
+
+		for _, id := range b.Server.VerifStateIDs(u.ID) {
+			if !k[id] {
+				extra = true
+			}
+		}
+
+		if !extra {
+			return
+		}
+
+		time.Sleep(500 * time.Microsecond)
+
+		if i > 200 {
+			time.Sleep(5 * time.Millisecond)
+		}
+	}
 }
 
 // CheckPanics returns an error if any gluon goroutine panicked.
